@@ -449,6 +449,24 @@ func c06e(c *Ctx) {
 				}
 			}
 		}
+		// no text is skipped: inside the loop nothing but the walk itself decides whether a text is emitted
+		if ok {
+			pc := c.PC(fn)
+			// what was settled before the loop is not a condition of the iteration
+			settled := map[string]bool{}
+			if h != nil {
+				for _, l := range c.mustLits(fn, h) {
+					settled[l[1:]] = true
+				}
+			}
+			d := dropAtoms(pc.canonOf(pc.At(calls[0].Block())), func(a string) bool {
+				return isRangeTest(a) || settled[a]
+			})
+			if !dnfEquiv(d, mkDNF([]string{})) {
+				ok = false
+				why = "a text is emitted only under [" + d.String() + "]: some program texts would be skipped"
+			}
+		}
 		// its result is written to the output
 		written := false
 		for _, ws := range c.sitesOf(fn) {
